@@ -90,7 +90,9 @@ def main():
         if not [o for o in mine if o['kind'] == 'goal']: broken.append(f"unit {u} produced no obligation for {pid}")
         obls += mine; functions += [dict(f, unit=u) for f in r['functions']]; trusted += [t for t in r['trusted'] if t not in trusted]; dropped |= set(r.get('dropped', [])); infos[u] = r.get('info')
     goals = [o for o in obls if o['kind'] == 'goal']; guards = [o for o in obls if o['kind'] == 'mustfail']
-    vac = [o['name'] for o in guards if o['status'] == 'VACUOUS']
+    groups = collections.defaultdict(list)
+    for o in guards: groups[(o['unit'], o['name'].split('/reach@')[0])].append(o['status'])
+    vac = [f"{u}:{n}" for (u, n), sts in groups.items() if 'reachable' not in sts]        # every guarded path of the function is infeasible => contradictory contract/axioms
     if vac: broken.append("vacuous hypotheses (must-fail obligation was 'proved'): " + "; ".join(vac[:5]))
     if not guards and not broken: broken.append("no vacuity guard was generated")
     # ---- supplements (bounded; never counted as proved)
